@@ -50,11 +50,38 @@ def gen_cases(tier, seed):
         nt = r.choice([1, 2, 3, 4, 8, 0])
         cs = r.choice([("C", 0), ("C", 1), ("C", 2), ("C", 8), ("C", 64), ("Cm", 1), ("Cm", 4), ("Cm", 32)])
         ops = ["N:%d" % nt, "%s:%d" % cs] + stages + ["%s:%d" % cs, "N:%d" % nt]
-        cases.append({"id": cid, "chain": chain, "ops": ops, "term": term, "nt": nt, "cs": cs, "m": m})
+        cases.append({"id": cid, "chain": chain, "ops": ops, "term": term, "nt": nt, "cs": cs, "m": m, "src": "endless", "big": 0})
+    # sequential grid: every chain with explicit chunk sizes; nothing beyond the first match may be pulled
+    cid = n
+    for chain in CHAINS:
+        for cs in [("C", 2), ("C", 8), ("Cm", 4), ("C", 64), ("C", 0)]:
+            for m in [0, 3, 17]:
+                stages = [{"M": "M:1:0", "F": "Fa", "X": "X:2:100000", "O": "O:2:0:1:0"}[s_] for s_ in chain]
+                target = m + 6 + ((m + 6) % 2 if "O" in chain else 0)
+                kind = ["find", "any", "find"][(cid + m) % 3]
+                term = "%s:F:120000:%d" % (kind, target)
+                ops = ["N:1", "%s:%d" % cs] + stages + ["%s:%d" % cs, "N:1"]
+                cases.append({"id": cid, "chain": chain, "ops": ops, "term": term, "nt": 1, "cs": cs, "m": m, "src": "endless", "big": 0})
+                cid += 1
+    # very long sources of known length: the work after the match must not depend on what remains
+    for chain in CHAINS:
+        for big in ([1 << 20, 1 << 24] if tier == "quick" else [1 << 20, 1 << 22, 1 << 24, 1 << 26]):
+            for (nt, cs) in [(8, ("Cm", 1)), (8, ("Cm", 16)), (0, ("Cm", 64)), (6, ("Cm", 4)), (8, ("C", 32))]:
+                m = r.choice([100, 1000, 5000])
+                stages = [{"M": "M:1:0", "F": "Fa", "X": "X:1:0", "O": "O:2:0:1:0"}[s_] for s_ in chain]
+                target = m + ((m % 2) if "O" in chain else 0)
+                # a single match in the whole range
+                term = "%s:F:%d:%d" % (r.choice(["find", "any"]), 1 << 40, target)
+                ops = ["N:%d" % nt, "%s:%d" % cs] + stages + ["%s:%d" % cs, "N:%d" % nt]
+                cases.append({"id": cid, "chain": chain, "ops": ops, "term": term, "nt": nt, "cs": cs, "m": m, "src": "bigrange", "big": big})
+                cid += 1
     return cases
 
 
 def impl_line(c):
+    if c["src"] == "bigrange":
+        return "id=%d shape=%s known=1 in=- ops=%s term=%s avail=%d sched=- fuel=0 big=%d" % (
+            c["id"], gen_harness.shape_name("bigrange", c["chain"]), ";".join(c["ops"]), c["term"], k3.AVAIL, c["big"])
     return "id=%d shape=%s known=0 in=- ops=%s term=%s avail=%d sched=- fuel=0" % (
         c["id"], gen_harness.shape_name("endless", c["chain"]), ";".join(c["ops"]), c["term"], k3.AVAIL)
 
@@ -120,6 +147,10 @@ def run_k10(tier, seed):
                 out["fail"].append({"case": line, "what": "panicked / ran away on an endless source", "observed": a[:300]})
             continue
         consumed = int(af.get("endless", "0"))
+        if c["src"] == "bigrange":
+            # first-stage evaluations (count-only mode); without a stage, evaluations of the predicate
+            nc = [int(x) for x in af.get("ncalls", "0").split("/")]
+            consumed = nc[2] if c["chain"] else nc[len(c["ops"])]
         # source elements a sequential run consumes = calls of the first stage in the sequential log
         seqlog = [] if mf.get("seqlog", "-") == "-" else mf["seqlog"].split(",")
         first_stage = min((int(x.split(":")[0]) for x in seqlog), default=None)
@@ -133,6 +164,10 @@ def run_k10(tier, seed):
                                     "consumed": consumed, "sequential_chain_consumes": seq_consumed})
         else:
             bound = 4 * seq_consumed + 16 * w * ch + 2000
+            if c["src"] == "bigrange":
+                # the chunk size of late workers may have grown to (done so far) / (workers so far)
+                bound = 4 * seq_consumed + 16 * w * (ch + seq_consumed) + 2000
+                out["dist"]["long_known_length"] = out["dist"].get("long_known_length", 0) + 1
             if consumed > bound:
                 out["fail"].append({"case": line, "what": "work after the match is not bounded by a few chunks per thread",
                                     "consumed": consumed, "match_reached_after": seq_consumed, "generous_bound": bound})
